@@ -24,6 +24,7 @@ class QuaHitList(HitList[QuaHit], QuaNoteList[QuaHit]):
         )
         df.offset = df.offset.fillna(0)
         df.column = df.column.fillna(0)
+        df.keysounds = [k if isinstance(k, list) else [] for k in df.keysounds]
         return QuaHitList(df)
 
     def to_yaml(self):
